@@ -27,7 +27,10 @@ RULE = ("corpus: every flow of every shipped test/mitmproxy/data/dumpfile-*.mitm
         "same with one field of the old state deleted/replaced (converter bodies raising); 10% the same with an extra "
         "bytes-keyed version entry (stale entry); 20% ver = version values from a dictionary (current, newer ints, "
         "unknown tuples, bool, float, None, str, bytes, nested lists, missing) under the str key, the bytes key or both, "
-        "on a minimal dict or a real current state. Non-trivial = at least one converter ran or the file was rejected; "
+        "on a minimal dict or a real current state (8% of the total instead are wsfile = the raw format-7 records of the shipped "
+        "websocket dump in generated orders: overlapping connections A B wsB wsA, websocket before/without handshake, repeats, "
+        "handshakes tagged with distinct host/port/path; every loaded flow must carry its own handshake id/host/port/path "
+        "and message count, host unknown only where the reference says the handshake is missing). Non-trivial = at least one converter ran or the file was rejected; "
         "distinct by canonical JSON.")
 TRUSTED = ["Coq 8.16.1 kernel (coqc), vm_compute for case evaluation and the table check chain_ok",
            "harness/translators/compat_chain.py (fail-closed ast translator: converter keys, the version literal each converter "
@@ -441,10 +444,67 @@ def gen(rng, n, tier):
             r = _recipe(rng, i)
             r["stale"] = _j(rng.choice([r["v"], r["v"], 21, 22, r["v"] + 1, [0, 11], None, [3, 0]]))
             out.append({"k": "synth", "r": r})
+        elif x < 0.88:
+            out.append(_wsfile(rng))
         else:
             out.append({"k": "ver", "base": rng.choice(["min", "min", "real"]), "keys": rng.choice(["s", "s", "b", "bs", "sb"]),
                         "val": _j(rng.choice(VER_VALUES)), "val2": _j(rng.choice(VER_VALUES))})
     return out
+
+
+WS_DUMP = "dumpfile-7-websocket.mitm"
+
+
+def _wsfile(rng):
+    """A format-7 file made of the raw records of the shipped websocket dump (0,3,5 = handshake flows, 1,2,4 =
+    websocket flows of handshakes 0,0,3) in a generated order: interleaved/overlapping connections, websocket flows
+    before or without their handshake, repeated records. tag: give every handshake its own host/port/path."""
+    x = rng.random()
+    if x < 0.35:
+        order = rng.choice([[0, 3, 4, 1], [0, 3, 1, 4], [3, 0, 4, 1], [0, 3, 5, 4, 1], [3, 5, 0, 1, 4], [0, 3, 4, 1, 2]])
+    elif x < 0.7:
+        order = list(range(6))
+        rng.shuffle(order)
+        order = order[:rng.randint(2, 6)]
+    else:
+        order = [rng.randint(0, 5) for _ in range(rng.randint(2, 8))]
+    return {"k": "wsfile", "order": order, "tag": rng.chance(0.7)}
+
+
+def _ws_records(case):
+    fo = open(os.path.join(DATA, WS_DUMP), "rb")
+    raw = []
+    try:
+        while True:
+            raw.append(tnetstring.load(fo))
+    except ValueError:
+        pass
+    recs = []
+    for i in case["order"]:
+        d = copy.deepcopy(raw[i])
+        if case.get("tag") and d["type"] == "http":
+            d["request"]["host"] = b"h%d.example" % i
+            d["request"]["port"] = 8000 + i
+            d["request"]["path"] = b"/conn-%d" % i
+        recs.append(d)
+    return recs
+
+
+def _ws_expected(recs):
+    """Reference for convert_11_12 at file level, written from its documentation: a handshake flow is kept until the
+    first websocket flow naming it arrives; that websocket flow becomes the handshake flow plus messages; a websocket
+    flow without (remaining) handshake becomes a made-up flow for host unknown that keeps the websocket flow id."""
+    avail, want = {}, []
+    for d in recs:
+        if d["type"] == "http":
+            me = [d["id"], d["request"]["host"].decode(), d["request"]["port"], d["request"]["path"].decode(), None]
+            if "websocket" in d["metadata"]:
+                avail[d["id"]] = me
+            want.append(me)
+        else:
+            h = avail.pop(d["metadata"]["websocket_handshake"], None)
+            want.append((h[:4] if h else [d["id"], "unknown", 80, "/"]) + [len(d["messages"])])
+    return want
 
 
 def _j(v):
@@ -483,6 +543,9 @@ def _file_for(case):
     k = case["k"]
     if k == "dump":
         return open(os.path.join(DATA, case["file"]), "rb").read(), case["idx"], None, {}
+    if k == "wsfile":
+        recs = _ws_records(case)
+        return b"".join(tnetstring.dumps(d) for d in recs), len(recs) - 1, None, {"ws_want": _ws_expected(recs)}
     if k == "synth":
         r = case["r"]
         want = build_current(r)
@@ -544,6 +607,11 @@ def run_impl(case):
         obs["eff_key_known"] = (eff in compat.converters if isinstance(eff, int) else
                                 (_hashable2(eff) and tuple(eff)[:2] in compat.converters))
         obs["pure_current_real"] = info["pure_current_real"]
+    if case["k"] == "wsfile":
+        obs["ws_want"] = info["ws_want"]
+        obs["ws_got"] = [[f.id, f.request.host, f.request.port, f.request.path,
+                          len(f.websocket.messages) if f.websocket else None] if f.type == "http" else [f.id, f.type]
+                         for f in flows]
     obs["stale_b"] = bool(obs["mig"]) and obs["mig"]["in"][0] is not None
     if len(flows) > idx:
         f = flows[idx]
@@ -638,7 +706,18 @@ def oracle(case, obs):
     if end.startswith("other:"):
         v.append({"key": "reader-other-exception", "what": f"{tag}: FlowReader.stream raised {end[6:]}"})
         return v
-    loaded = obs["nflows"] > (case["idx"] if k == "dump" else 0)
+    loaded = obs["nflows"] > (case["idx"] if k == "dump" else len(case["order"]) - 1 if k == "wsfile" else 0)
+    if k == "wsfile":
+        tag = f"records {case['order']} of {WS_DUMP}" + (" (tagged)" if case.get("tag") else "")
+        if end != "ok" or obs["nflows"] != obs["nrec"]:
+            v.append({"key": "websocket-file-fails", "what": f"{tag}: {obs['nflows']} of {obs['nrec']} flows loaded, end={end}"})
+            return v
+        for j, (w, g) in enumerate(zip(obs["ws_want"], obs["ws_got"])):
+            if w != g:
+                key = "websocket-lost-handshake" if (len(g) > 1 and g[1] == "unknown" and w[1] != "unknown") \
+                    else "websocket-wrong-handshake"
+                v.append({"key": key, "what": f"{tag}: flow {j} loaded as [id, host, port, path, messages] = {g}, expected {w}"})
+                break
     if k == "dump":
         if case["file"] == "dumpfile-010.mitm":
             if not (end == "fre" and obs["msg_version"] and not obs["hint"] and obs["nflows"] == 0):
@@ -691,6 +770,9 @@ def classify(case, obs):
     o = m["out"]
     tags = [case["k"], "end=" + obs["end"].split(":")[0],
             "out=" + (next(iter(o)) if isinstance(o, dict) else str(o)), "calls=%d" % min(len(m["calls"]), 15)]
+    if case["k"] == "wsfile":
+        tags += ["ws-dummy" if any(w[1] == "unknown" for w in obs.get("ws_want", [])) else "ws-all-matched",
+                 "ws-n=%d" % len(case["order"])]
     if case["k"] == "synth":
         tags += ["v=%d" % case["r"]["v"], "t=" + case["r"]["t"]] + [x for x in ("mut", "stale") if x in case["r"]]
     if any(isinstance(e, list) for e in m.get("script", [])):
